@@ -913,7 +913,10 @@ V("c05c-loss-kernel-plus", "C05", {"rule": "C05c", "contains": "conservation"},
   (PPROB, "        np.identity(input_number_of_modes, dtype=complex_dtype) - np.conj(T).T @ T", "        np.identity(input_number_of_modes, dtype=complex_dtype) + np.conj(T).T @ T"))
 V("c05c-repaired-kernel", "C05", "silent",
   (PPROB, "        np.identity(input_number_of_modes, dtype=complex_dtype) - np.conj(T).T @ T", "        np.identity(input_number_of_modes, dtype=complex_dtype) - T.T @ np.conj(T)"))
-V("c05c-repaired-other-side", "C05", "silent",
+V("c05c-repaired-other-side", "C05", "silent",   # the other consistent repair: conj(v) v^T pairs with the plain Gram matrix and with I - T^dagger T
+  (PPROB, "        B_detected.append(G * np.outer(vector, np.conj(vector)))", "        B_detected.append(G * np.outer(np.conj(vector), vector))"),
+  (PPROB, "        G = np.conj(particle_overlap)\n", "        G = particle_overlap\n"))
+V("c05g-repaired-other-side-with-the-conjugate-gram", "C05", {"rule": "C05g", "contains": "get_lossy_partially_distinguishable_detection_probabilities"},
   (PPROB, "        B_detected.append(G * np.outer(vector, np.conj(vector)))", "        B_detected.append(G * np.outer(np.conj(vector), vector))"))
 V("c05c-unknown-construction", "C05", {"exit": 2},
   (PPROB, "        B_detected.append(G * np.outer(vector, np.conj(vector)))", "        B_detected.append(G * np.einsum('i,j->ij', vector, np.conj(vector)))"))
